@@ -4,7 +4,7 @@ import io
 import plistlib
 
 from construct import Adapter, Struct, Const, Padding, Int32ul, Int64ul, Array, GreedyRange, Byte, FixedSized, \
-    CString, Prefixed, GreedyBytes, Aligned, Bytes, Select
+    Prefixed, GreedyBytes, Aligned, Bytes, Select, NullTerminated, GreedyString
 
 from pykdebugparser.kevent import from_kd_buf, KD_BUF_FORMAT
 from pykdebugparser.os_log_event import OsLogEvent
@@ -31,7 +31,8 @@ TRACEV3_IMAGES = b'\x04\x80\x00\x00\x01\x00\x00\x00'
 kd_threadmap = Struct(
     'tid' / Int64ul,
     'pid' / Int32ul,
-    'process' / FixedSized(0x14, CString('utf8')),
+    # A name that fills the whole field has no terminator.
+    'process' / FixedSized(0x14, NullTerminated(GreedyString('utf8'), require=False)),
 )
 
 
